@@ -48,6 +48,10 @@ type FragmentBuffer struct {
 
 const assembledHistory = 32
 
+// maxMessagesAhead bounds how far beyond the awaited message sequence number a
+// fragment may lie to be buffered.
+const maxMessagesAhead = 32
+
 type assembledMessage struct {
 	sequence uint16
 	typ      handshake.Type
@@ -170,6 +174,16 @@ func (f *FragmentBuffer) pushHandshakeFragments(
 			continue
 		}
 
+		// A flight holds a handful of messages. Fragments numbered far beyond the
+		// message being waited for cannot be reached before they are retransmitted
+		// anyway; buffering them lets a single sender use up the fragment budget
+		// for good, after which every genuine fragment is refused.
+		if frag.handshakeHeader.MessageSequence-f.currentMessageSequenceNumber >= maxMessagesAhead {
+			buf = buf[end:]
+
+			continue
+		}
+
 		if frag.handshakeHeader.FragmentLength == 0 && frag.handshakeHeader.Length != 0 {
 			// An empty fragment of a non-empty message carries nothing to
 			// assemble. Storing it would occupy its offset and shadow the
@@ -192,6 +206,9 @@ func (f *FragmentBuffer) pushHandshakeFragments(
 		frag.recordLayerHeader = recordLayerHeader
 
 		if _, ok = messageFragments.fragmentByOffset[frag.handshakeHeader.FragmentOffset]; !ok {
+			if f.totalFragmentCount >= fragmentBufferMaxCount {
+				return false, false, dtlserrors.ErrFragmentBufferOverflow
+			}
 			messageFragments.fragmentByOffset[frag.handshakeHeader.FragmentOffset] = frag
 			messageFragments.fragmentsLength += frag.handshakeHeader.FragmentLength
 			f.totalBufferSize += int(frag.handshakeHeader.FragmentLength)
